@@ -25,7 +25,8 @@ TPair ==
            t2 == Norm(Ev.in.t2)
            e  == Expected(t1, t2)
        IN  /\ Judge(Ev.a, Ev.in.d, t1, t2, [signable |-> Ev.out.signable, sem |-> e.sem, eq |-> Ev.out.eq])
-           /\ Strict => (Ev.out.signable = e.signable /\ (e.signable => Ev.out.eq = e.eq))
+           \* pairs of the known-deviation class are judged by the InvK_ invariants only
+           /\ (Strict /\ PairClass(t1, t2) = "none") => (Ev.out.signable = e.signable /\ (e.signable => Ev.out.eq = e.eq))
 TraceNext == TNew \/ TPair
 TraceSpec == TraceInit /\ [][TraceNext]_tvars
 
